@@ -1,11 +1,15 @@
 # C18 — the XHTML and MoinMoin converters are total, complete and escape everything.
 import io, json, os, tempfile, re
 import vlib, xmllib as X, pkglib as P
+from . import c18events as EV
 from vlib import sx_str, sx_to_pystr
 
 THEOREMS = ['C18_text_stays_text: what writedata() emits for a string is lexed back as that string, never leaving text mode (every string of XML characters)',
             'C18_attribute_stays_attribute: what quoteattr emits is lexed back as one attribute with that value', 'C18_escaped_has_no_markup_start',
-            'PARTIAL: totality and completeness of the 200 handlers are decided by the oracle only']
+            'C18_output_tokens: ANY sequence of writer calls (opentag, closetag, emptytag, writedata, the text:s character reference, the internal style sheet) is lexed into exactly one token per tag call with the attribute values and the character data as given - for all strings at once; C18_tags_are_the_calls',
+            'C18_output_well_formed: under the tag-stack discipline (checked by the model\'s wellnested on the recorded calls of every conversion) the token stream builds a tree',
+            'C18_style_sheet_stays_text: the CDATA section of the style sheet ends where the writer ends it, whatever the style properties contain',
+            'PARTIAL: which calls the 200 handlers make (totality, completeness, the discipline itself) is decided by the oracle and by the recorded calls of each conversion, not by a theorem']
 RULE = ('documents from the converters\' vocabulary, written as packages by the harness: paragraphs, headings of level 1-10, spans, links '
         '(with any target, also empty), ordered / unordered / nested lists, tables, frames with text boxes and images, footnotes and '
         'endnotes, text:s / text:tab / text:line-break, soft page breaks, with text, attribute strings (link targets, image names, '
@@ -14,9 +18,14 @@ RULE = ('documents from the converters\' vocabulary, written as packages by the 
         'oracle: odf2xhtml() must return (no exception) a string that expat accepts; the sequence of its text tokens (white space '
         'collapsed) must contain the tokens of the source document in document order; no element or attribute beyond those the '
         'converter writes appears because of document strings (injection markers). ODF2MoinMoin.toString(): no exception, tokens in order. '
-        'correspondence: the writer primitives (escape, quoteattr, opentag, closetag, emptytag) on the same strings through the extracted model. '
+        'correspondence: the writer primitives (escape, quoteattr, opentag, closetag, emptytag) on the same strings through the extracted model; '
+        'and for EVERY conversion the writer calls are recorded (the primitives and the two output sinks are wrapped on the converter instance, '
+        'nothing in /repo changes), expressed as events of HtmlDoc.v, and the real output must equal the DOCTYPE line followed by h_render of '
+        'those events, the events must be wellnested, and expat must see exactly the tags and the character data C18_output_tokens predicts; '
+        'style properties (fo:font-family) carry markup strings too, "]]>" included. '
         'non-trivial = a document with a markup character in some string; distinct by shape.')
-TRUSTED = ['the handlers of the converters are exercised, not modelled (1700 lines of SAX handlers); what is modelled and proved is the writer layer every handler goes through']
+TRUSTED = ['the handlers of the converters are exercised, not modelled (1700 lines of SAX handlers); what is modelled and proved is the writer layer every handler goes through, and the whole output as a sequence of calls of that layer',
+           'tools/props/c18events.py: the translation of recorded calls and literal writes (title line, meta lines, note bodies, escaped literals) into events; a literal it cannot express is reported, not skipped']
 ASSUMPTIONS = ['tokens are compared after white-space collapsing; text the converter legitimately adds (footnote numbers, list bullets in MoinMoin) is ignored by the subsequence test']
 
 TXT = P.NS['text']; OFF = P.NS['office']
@@ -83,10 +92,13 @@ def make_doc(rng, kind='text'):
     meta = ('<meta:generator>Other/1.0</meta:generator><dc:title>%s</dc:title><dc:language>%s</dc:language><dc:creator>%s</dc:creator><meta:keyword>%s</meta:keyword>'
             % (P.xml_text(rng.choice(['Title', 'A & B', 'x <y>', 'q"uote'])), P.xml_text(rng.choice(['en', 'en-US', 'e"n', 'x&y'])),
                P.xml_text(rng.choice(['Me', 'O\'Neil', 'a"b', 'A & B <c>'])), P.xml_text(rng.choice(['k', 'k&l']))))
-    autos = ('<style:style style:name="P1" style:family="paragraph"><style:paragraph-properties fo:text-align="center"/></style:style>'
-             '<style:style style:name="P&amp;2" style:family="paragraph"/><style:style style:name="T1" style:family="text"><style:text-properties fo:font-weight="bold"/></style:style>'
+    # style properties end up in the internal style sheet: their strings are document strings too
+    fam = [rng.choice(['Arial', "'Times New Roman', serif", 'a]]>b', ']]>', 'x<y', 'a&b', 'q"uote', 'serif]]', '</style>', 'é中']) for _ in range(2)]
+    if any(c in f for f in fam for c in '<>&"]'): g.hot = True
+    autos = ('<style:style style:name="P1" style:family="paragraph"><style:paragraph-properties fo:text-align="center"/><style:text-properties fo:font-family="%s"/></style:style>'
+             '<style:style style:name="P&amp;2" style:family="paragraph"/><style:style style:name="T1" style:family="text"><style:text-properties fo:font-weight="bold" fo:font-family="%s"/></style:style>'
              '<style:style style:name="T2" style:family="text"/><style:style style:name="T&lt;3" style:family="text"/>'
-             '<text:list-style style:name="L1"><text:list-level-style-bullet text:level="1" text:bullet-char="•"/></text:list-style>')
+             '<text:list-style style:name="L1"><text:list-level-style-bullet text:level="1" text:bullet-char="•"/></text:list-style>') % (P.xml_attr(fam[0]), P.xml_attr(fam[1]))
     if kind == 'text':
         data = P.simple_package(body, autostyles=autos, meta=meta, extra_members=[('Pictures/p1.png', b'\x89PNG', 'image/png')],
                                 styles='<style:default-style style:family="paragraph"/><style:style style:name="Standard" style:family="paragraph"/>')
@@ -149,8 +161,34 @@ def writer_correspondence(ctx):
         del out[:]; conv.emptytag(tag, dict(atts))
         ctx.corr('emptytag', [tag, atts], sx_to_pystr(d.call('h_emptytag', sx_str(tag), asx)), ''.join(out))
 
+def writer_events(ctx, d, rec, out, case):
+    """the recorded writer calls of this conversion as events of HtmlDoc.v: the real output must be what the model renders
+    for them (correspondence), they must satisfy the hypotheses of C18_output_well_formed, and an independent parser must
+    see what C18_output_tokens says it sees"""
+    try:
+        evs, prologue = EV.model_events(rec)
+    except EV.Unmodelled as u:
+        ctx.corr('every piece of output is one of the modelled writer calls', case, str(u), None); return
+    m = d.call('h_doc', EV.events_sx(evs))
+    ctx.corr('output of the conversion = h_render of its writer calls', case, prologue + sx_to_pystr(m[0]), out)
+    if m[1] != '1':
+        ctx.violation('tag-stack-discipline-broken', case, [e[:2] for e in evs if e[0] in ('open', 'close', 'empty')][:60], 'every closetag closes the innermost open tag; one root', {'aspect': 'well-formed'})
+    ctx.bump('events: names and strings within the theorem (ev_ok) ' + ('yes' if m[2] == '1' else 'no'))
+    if m[2] == '1' and m[1] == '1':
+        try:
+            got = EV.expat_parse(out)
+        except Exception:
+            return                                   # reported by the oracle above
+        want = EV.expected_parse(evs)
+        if got[0] != want[0]:
+            k = next((i for i, (a, b) in enumerate(zip(got[0], want[0])) if a != b), min(len(got[0]), len(want[0])))
+            ctx.violation('parser-sees-other-tags-than-written', case, got[0][k:k + 2], want[0][k:k + 2], {'aspect': 'injection'})
+        elif got[1].rstrip() != want[1].rstrip():
+            ctx.violation('parser-sees-other-text-than-written', case, got[1][-200:], want[1][-200:], {'aspect': 'injection'})
+
 def run(ctx):
     writer_correspondence(ctx)
+    d = ctx.get_driver()
     from odf.odf2xhtml import ODF2XHTML
     from odf.odf2moinmoin import ODF2MoinMoin
     n = 40 if ctx.quick else 600
@@ -168,11 +206,13 @@ def run(ctx):
             need = list(g.tokens) if kind == 'text' else [t for t in g.tokens]
             for css in (True, False):
                 ctx.oracle_cases += 1
+                conv = ODF2XHTML(generate_css=css, embedable=False)
+                rec = EV.Recorder(conv)
                 try:
-                    out = ODF2XHTML(generate_css=css, embedable=False).odf2xhtml(fn)
+                    out = conv.odf2xhtml(fn)
                 except Exception as e:
                     ctx.violation('xhtml-raised', dict(case, css=css), repr(e)[:200], 'a string', {'exception': type(e).__name__}); continue
-                t = X.expat_parse_lenient(out) if hasattr(X, 'expat_parse_lenient') else None
+                writer_events(ctx, d, rec, out, dict(case, css=css))
                 import xml.parsers.expat
                 try:
                     tree = parse_any(out)
